@@ -1,18 +1,120 @@
+mod checks;
+mod codec;
+mod common;
+mod gen;
+mod interp;
+mod model;
+mod refgens;
+mod refsession;
+mod runner;
+mod selftest;
+mod session;
+mod tamper;
+mod faults;
+
+use runner::*;
+use std::time::Instant;
+
+fn usage() -> ! {
+    eprintln!("usage: bpsim <C01..C18> [quick|thorough] | bpsim replay <file> | bpsim selftest <what>");
+    std::process::exit(2)
+}
+
 fn main() {
-    use ark_bulletproofs::{r1cs::*, BulletproofGens, PedersenGens};
-    use merlin::Transcript;
-    type G = ark_curve25519::EdwardsAffine;
-    let pc = PedersenGens::<G>::default();
-    let bp = BulletproofGens::<G>::new(4, 1);
-    let mut t = Transcript::new(b"x");
-    merlin::sim::start_recording();
-    let mut p = Prover::new(&pc, &mut t);
-    let (_c, v) = p.commit(3u64.into(), 5u64.into());
-    let (_, _, o) = p.multiply(v.into(), v.into());
-    p.constrain(o - ark_curve25519::Fr::from(9u64));
-    let mut rng = rand_chacha::ChaChaRng::from_seed([1u8; 32]);
-    use rand_chacha::rand_core::SeedableRng;
-    let proof = p.prove(&mut rng, &bp).unwrap();
-    let log = merlin::sim::stop_recording();
-    println!("{} ops, proof {} bytes", log.len(), proof.to_bytes().unwrap().len());
+    // panics inside the code under test are caught and attributed; keep stderr quiet
+    std::panic::set_hook(Box::new(|info| {
+        if std::env::var("BPSIM_PANIC_TRACE").is_ok() {
+            eprintln!("{}", info);
+        }
+    }));
+    let args: Vec<String> = std::env::args().collect();
+    if args.len() < 2 {
+        usage();
+    }
+    let verif_dir = std::env::var("VERIF_DIR").unwrap_or_else(|_| "/verif".to_string());
+    let seed: u64 = std::env::var("VERIF_SEED")
+        .ok()
+        .and_then(|s| s.parse().ok())
+        .unwrap_or(1);
+    let workers: usize = std::env::var("VERIF_WORKERS")
+        .ok()
+        .and_then(|s| s.parse().ok())
+        .unwrap_or_else(|| std::thread::available_parallelism().map(|n| n.get()).unwrap_or(4));
+    match args[1].as_str() {
+        "replay" => {
+            if args.len() < 3 {
+                usage();
+            }
+            let s = std::fs::read_to_string(&args[2]).unwrap_or_else(|e| {
+                eprintln!("cannot read {}: {}", args[2], e);
+                std::process::exit(2)
+            });
+            let v: serde_json::Value = serde_json::from_str(&s).unwrap_or_else(|e| {
+                eprintln!("bad replay file: {}", e);
+                std::process::exit(2)
+            });
+            let prop = v["property"].as_str().unwrap_or("").to_string();
+            let want_sig = v["signature"].as_str().unwrap_or("").to_string();
+            match checks::replay(&prop, &v["case"]) {
+                None => {
+                    eprintln!("unknown property {}", prop);
+                    std::process::exit(2)
+                }
+                Some(vs) => {
+                    if let Some(hit) = vs.iter().find(|x| x.signature == want_sig).or(vs.first()) {
+                        println!("VIOLATION property={} replay={}", prop, args[2]);
+                        println!("  oracle: {}", hit.oracle);
+                        println!("  what:   {}", hit.detail);
+                        if hit.signature != want_sig {
+                            println!("  note: signature differs from recorded one ({} vs {})", hit.signature, want_sig);
+                        }
+                        std::process::exit(1)
+                    } else {
+                        eprintln!("replay did NOT reproduce a violation (harness error or the tree changed)");
+                        std::process::exit(2)
+                    }
+                }
+            }
+        }
+        "selftest" => {
+            let what = args.get(2).map(|s| s.as_str()).unwrap_or("all");
+            let mut ok = true;
+            if what == "all" || what == "merlin" {
+                if let Err(e) = selftest::merlin_kat(&verif_dir) {
+                    eprintln!("SELFTEST FAILED: {}", e);
+                    ok = false;
+                }
+            }
+            if what == "all" || what == "determinism" {
+                if let Err(e) = selftest::determinism(&verif_dir, checks::ALL) {
+                    eprintln!("SELFTEST FAILED: {}", e);
+                    ok = false;
+                }
+            }
+            std::process::exit(if ok { 0 } else { 2 })
+        }
+        p if p.starts_with('C') => {
+            let tier = match args.get(2).map(|s| s.as_str()).or(std::env::var("VERIF_TIER").ok().as_deref()) {
+                Some("thorough") => Tier::Thorough,
+                _ => Tier::Quick,
+            };
+            let prop: &'static str = Box::leak(p.to_string().into_boxed_str());
+            let ctx = Ctx {
+                prop,
+                tier,
+                seed,
+                workers,
+                start: Instant::now(),
+                verif_dir,
+            };
+            match checks::dispatch(prop, &ctx) {
+                Some(code) => std::process::exit(code),
+                None => {
+                    eprintln!("no check for {}", prop);
+                    std::process::exit(2)
+                }
+            }
+        }
+        _ => usage(),
+    }
 }
